@@ -106,6 +106,16 @@ func streamIsolation(o *Out, r *rand.Rand, n int, thorough bool) {
 		"re = import(\"regexp\").MustCompile(\"a(|b)\")\nr1 = re.FindString(\"ab\")\nre.Longest()\nr2 = re.FindString(\"ab\")\nprobe([r1, r2])",
 		"regexp = import(\"regexp\")\nre, err = regexp.Compile(\"a|ab\")\nprobe(re.FindString(\"ab\"))\nre.Longest()\nprobe(re.FindString(\"ab\"))\nprobe(regexp.MustCompile(\"a|ab\").FindString(\"ab\"))",
 		"strings = import(\"strings\")\nb = strings.NewReplacer(\"a\", \"b\")\nprobe(b.Replace(\"aa\"))\nbuf = import(\"bytes\").NewBufferString(\"x\")\nbuf.WriteString(\"y\")\nprobe(buf.String())",
+		// typed map literals are filled in source order (a later entry whose key converts to the same key wins; the first ill-typed
+		// entry is the one reported) - built 40 times per run, every run the same
+		"r = []\nfor i = 0; i < 40; i++ {\nm = map[float64]string{1: \"int\", 1.0: \"float\", 1: \"again\"}\nr += m[1.0]\n}\nprobe(r)",
+		"r = []\nfor i = 0; i < 40; i++ {\nm = map[int64]string{1.2: \"a\", 1.7: \"b\", 1: \"c\", 2: \"d\"}\nr += m[1]\n}\nprobe(r)",
+		"r = []\nfor i = 0; i < 40; i++ {\ntry {\nm = map[int64]int64{\"x\": 1, 2: \"y\", [3]: 4}\n} catch e {\nr += toString(e)\n}\n}\nprobe(r)",
+		"r = []\nfor i = 0; i < 40; i++ {\nm = map[string]int64{\"a\": 1, \"b\": 2, \"a\": 3, \"c\": 4, \"b\": 5}\nr += [m.a, m.b]\n}\nprobe(r)",
+		// text handed to Go functions that take / return []byte: a write through the result never reaches the literal in the tree
+		"bytes = import(\"bytes\")\nb = bytes.TrimSpace(\"  anko  \")\nb[0] = b[0] - 32\nprobe(toString(b))",
+		"bytes = import(\"bytes\")\nparts = bytes.Fields(\"ab cd\")\nparts[0][0] = 90\nparts[1][1] = 90\nprobe([toString(parts[0]), toString(parts[1])])\nprobe(\"ab cd\")",
+		"b = toByteSlice(\"hello\")\nb[0] = 72\nprobe([toString(b), \"hello\"])",
 		"c = make(chan int64, 2)\ns = make(struct { C chan int64 })\nprobe(s.C == nil)\nt = make([][]int64, 2)\nt[0] = [1]\nt[0][0]++\nprobe(t)",
 	}
 	for i := 0; i < n+len(extra); i++ {
